@@ -63,6 +63,24 @@ Inductive status :=
 
 Definition result : Type := list key * list bool * status.
 
+(* the iterations of `while (c) body`, given the semantics [rb] of the body *)
+Fixpoint run_loop (c : nat) (rb : list bool -> result) (fuel : nat) (ds : list bool) {struct fuel} : result :=
+  match fuel with
+  | 0 => ([], ds, Diverged)
+  | S fuel =>
+      match ds with
+      | [] => ([KCond c], [], Exhausted)
+      | false :: ds1 => ([KCond c], ds1, Running)
+      | true :: ds1 =>
+          let '(tr1, ds2, st1) := rb ds1 in
+          match st1 with
+          | Running =>
+              let '(tr2, ds3, st2) := run_loop c rb fuel ds2 in (KCond c :: tr1 ++ tr2, ds3, st2)
+          | _ => (KCond c :: tr1, ds2, st1)
+          end
+      end
+  end.
+
 Fixpoint run (s : sk) (ds : list bool) {struct s} : result :=
   match s with
   | SLeaf id r => ([KLeaf id], ds, if r then Returned else Running)
@@ -100,22 +118,7 @@ Fixpoint run (s : sk) (ds : list bool) {struct s} : result :=
       end
   | SWhile c body =>
       (* every iteration consumes a decision, so |ds|+1 iterations suffice *)
-      (fix loop (fuel : nat) (ds : list bool) {struct fuel} : result :=
-         match fuel with
-         | 0 => ([], ds, Diverged)
-         | S fuel =>
-             match ds with
-             | [] => ([KCond c], [], Exhausted)
-             | false :: ds1 => ([KCond c], ds1, Running)
-             | true :: ds1 =>
-                 let '(tr1, ds2, st1) := run body ds1 in
-                 match st1 with
-                 | Running =>
-                     let '(tr2, ds3, st2) := loop fuel ds2 in (KCond c :: tr1 ++ tr2, ds3, st2)
-                 | _ => (KCond c :: tr1, ds2, st1)
-                 end
-             end
-         end) (S (length ds)) ds
+      run_loop c (run body) (S (length ds)) ds
   end.
 
 Definition trace (s : sk) (ds : list bool) : list key := fst (fst (run s ds)).
@@ -227,3 +230,21 @@ Fixpoint walk_status (n : nat) (g : graph) (p : pos) (ds : list bool) : list key
 
 Definition walk_tree (n fuel : nat) (g : graph) : list (list bool * list key * status) :=
   explore n (fun ds => walk_status fuel g (0, 0) ds) [].
+
+(* ------------------------------------------------------------------ *)
+(* what the parser can produce: the body of a definition is a block and *)
+(* an initialisation block holds only declarations and substitutions    *)
+(* ------------------------------------------------------------------ *)
+Definition is_leaf (s : sk) : bool := match s with SLeaf _ _ => true | _ => false end.
+
+Fixpoint init_ok (s : sk) : bool :=
+  match s with
+  | SLeaf _ _ => true
+  | SInit ss => forallb is_leaf ss
+  | SBlock ss => forallb init_ok ss
+  | SWhile _ b => init_ok b
+  | SIf _ t e => init_ok t && match e with Some e => init_ok e | None => true end
+  end.
+
+Definition parser_shaped (body : sk) : Prop :=
+  (exists ss, body = SBlock ss) /\ init_ok body = true.
